@@ -7,13 +7,13 @@ HOOK_COMMITS = ["424d91d", "9dba8ee", "9908f96"]
 
 # property -> (engine, category, technique, text, note, design_ref)
 CHECKS = {
- "C10": ("eyesim", "exploration",
-         "deterministic simulation: EyeballSet over scripted attempts in virtual time; small grids enumerated, larger ones by seeded search; predicate oracle over recorded start/finish instants",
+ "C10": ("eyesim+realconnect", "exploration",
+         "deterministic simulation: EyeballSet over scripted attempts in virtual time; small grids enumerated, larger ones by seeded search; predicate oracle over recorded start/finish instants; second part (realconnect): TcpTransport::connect_to_addrs and Service::call with a static resolver against 0..5 listening / refusing loopback addresses (all combinations up to 4 enumerated) for the wiring the core cannot see (candidate order, port, returned stream, error mapping)",
          "Every configuration with N<=2 (quick) / N<=3 (thorough) candidates on the outcome x latency x delay x timeout x concurrency grid is executed, plus seeded random cases up to N=6 with off-grid values; the result is checked against predicates over the scripted outcomes and the instants the real code started each attempt. Exploration, not proof: beyond the enumerated grid it samples.",
-         "trusts tokio's paused clock / timer ordering and FuturesUnordered; attempts are scripted futures, TcpConnecting's sockets are not run",
+         "trusts tokio's paused clock / timer ordering and FuturesUnordered; in the virtual-time part attempts are scripted futures; the realconnect part uses real loopback sockets, where only accept-at-once and refuse-at-once exist (no latency, no hang)",
          "DESIGN.md 5 (C10), 4.C"),
- "C11": ("eyesim", "exploration",
-         "deterministic simulation: same runs as C10; recorded first-poll / completion / drop instants compared with a reference pacing model (exact until the first same-millisecond tie)",
+ "C11": ("eyesim+realconnect", "exploration",
+         "deterministic simulation: same runs as C10; recorded first-poll / completion / drop instants compared with a reference pacing model (exact until the first same-millisecond tie); second part (realconnect): over real loopback sockets the listeners' backlogs tell which candidates were attempted - order, at most once, nothing beyond the winner under concurrency 1, nothing beyond winner + c - 1 under concurrency c",
          "Start order, at-most-once, initial batch size, earliest-legal-start = min(last start + stagger, next failure), nothing after the result, overall deadline, all attempts dropped at completion; grid enumerated for small N and sampled above.",
          "ties between a success, a failure and a stagger tick in the same millisecond are not judged (either order is legal); initial concurrency 0 is treated as 1 (something must start for progress)",
          "DESIGN.md 5 (C11), 4.C"),
@@ -32,10 +32,10 @@ CHECKS.update({
  "C14": pool("After each hand-back / HTTP/2 registration the first request with a provably live waiter must be handed that connection at its very next poll; abandoned attempts complete into the pool (continue_after_preemption) or are dropped at once (otherwise).", "DESIGN.md 5 (C14), 4.A"),
  "C15": pool("After every step: open idle HTTP/1 connections retained per origin, minus those a pending request could be holding, never exceeds max_idle_per_host in {0,1,2,k-1,k,k+1}.", "DESIGN.md 5 (C15), 4.A"),
  "C17": pool("Panic monitor (process-wide hook + catch_unwind around every call/poll/drop + background tasks) over step lists that include every http::Version constant, upgrades, cancels, service drop.", "DESIGN.md 5 (C17)"),
- "C18": ("iosim", "exploration",
-         "deterministic simulation: writer/reader scripts over each adapter stack on SimNet (seeded chunking, Pending injection, virtual delays, pipe capacity, EOF/reset at byte offsets) compared with a reference FIFO",
+ "C18": ("iosim+realio", "exploration",
+         "deterministic simulation: writer/reader scripts over each adapter stack on SimNet (seeded chunking, Pending injection, virtual delays, pipe capacity, over-initialising reads, EOF/reset at byte offsets) compared with a reference FIFO; second part (realio): the same seeded writer/reader scripts over hyperdriver's TcpStream / UnixStream (connect, accept, pair), bare, inside Braid inside client/server Stream, and under TLS, carried by real loopback and Unix-domain sockets (fault-free)",
          "TokioIo in both directions, Rewind, client/server braid Stream (plain and TLS arms), duplex transport: bytes received are always a prefix of the position-indexed reference stream, nothing beyond what was offered, EOF after shutdown, resets surface as errors, read-buffer contract (pre-filled bytes untouched, no over-report). Seeded search.",
-         "Braid TCP/Unix arms need kernel sockets and are not run; TLS runs with >=32 KiB pipe capacity (smaller socket buffers deadlock any TLS handshake); an endpoint is not used again after it returned an error",
+         "the TCP/Unix wrappers and Braid arms run over real kernel sockets, where chunking is the kernel's and no fault can be injected; TLS runs with >=32 KiB pipe capacity (smaller socket buffers deadlock any TLS handshake); an endpoint is not used again after it returned an error",
          "DESIGN.md 5 (C18), 4.D"),
  "C19": ("timersim+poolsim", "exploration",
          "deterministic simulation in virtual time: Timeout layer over a scripted inner future (grid enumerated) and over the real pool (deadline landing in every stage of a pooled request), with a follow-up probe",
